@@ -14,6 +14,8 @@ def cfgOf (profile : String) : Gen.Cfg :=
   | "forest" => { maxW := 4, maxH := 3, maxFrames := 1, maxLayers := 8, tilesets := false,
                   tags := false, slices := false, extFiles := false, userData := false,
                   oldPalette := false, blendModes := false }
+  | "legacyindexed" => { depth := 8, legacyOnly := true, zlib := false, padding := false,
+                         ignorable := false, tilesets := false, userData := false }
   | "indexedplain" => { depth := 8, oldPalette := false, zlib := false, padding := false,
                         ignorable := false, tilesets := false, userData := false }
   | "tiles" => { maxLayers := 3, tags := false, slices := false, extFiles := false }
@@ -50,6 +52,11 @@ partial def loop (h : IO.FS.Stream) (out : IO.FS.Stream) (m : Profile) : IO Unit
         let bs := Spec.encode p
         out.putStrLn s!"INPUT {profile}-{seed}-{i} {Obs.hex bs}"
         emitCase out false m s!"{profile}-{seed}-{i}" bs
+        -- both sides of theorem C01.decode_encode on this very program: the semantic meaning
+        -- (state machine over the items' meanings + validation) vs the parse of the encoded bytes
+        let viaSem := Obs.load false m (Spec.semParse (Spec.headerSem p) (Spec.framesSem m p))
+        let viaParse := Obs.load false m (parse Zlib.inflate m bs)
+        out.putStrLn s!"SEMCHECK {profile}-{seed}-{i} {if viaSem == viaParse then "same" else "MISMATCH"}"
       out.flush
       loop h out m
   | ["GENVAR", profile, seed, count, k] =>
@@ -63,6 +70,22 @@ partial def loop (h : IO.FS.Stream) (out : IO.FS.Stream) (m : Profile) : IO Unit
           let bs := Spec.encode q
           out.putStrLn s!"INPUT var-{profile}-{seed}-{i}-{j} {Obs.hex bs}"
           emitCase out false m s!"var-{profile}-{seed}-{i}-{j}" bs
+      out.flush
+      loop h out m
+  | ["GENSQUARE", mode, ba, sa, lop, cop] =>
+      -- the complete (backdrop channel, source channel) square 256 x 256 for one pair of alphas:
+      -- pixel (x, y) has backdrop (x, x, x, ba) and source (y, y, y, sa) rotated over the channels
+      let back := (List.range 65536).map (fun i =>
+        let x := UInt8.ofNat (i % 256)
+        RGBA.mk x (UInt8.ofNat ((i % 256 + 85) % 256)) (UInt8.ofNat ((i % 256 + 170) % 256)) (UInt8.ofNat ba.toNat!))
+      let src := (List.range 65536).map (fun i =>
+        let y := UInt8.ofNat (i / 256)
+        RGBA.mk y (UInt8.ofNat ((i / 256 + 85) % 256)) (UInt8.ofNat ((i / 256 + 170) % 256)) (UInt8.ofNat sa.toNat!))
+      let p := Gen.blendProgram mode.toNat! lop.toNat! cop.toNat! 256 256 back src
+      let bs := Spec.encode p
+      let id := s!"square-{mode}-{ba}-{sa}-{lop}-{cop}"
+      out.putStrLn s!"INPUT {id} {Obs.hex bs}"
+      emitCase out false m id bs
       out.flush
       loop h out m
   | ["GENBLEND", mode, seed, lop, cop, w, hh, verbose] =>
